@@ -210,7 +210,7 @@ func (p *Parser) writeHelpOption(writer *bufio.Writer, option *Option, info alig
 		}
 	}
 
-	written := line.Len()
+	written := utf8.RuneCount(line.Bytes())
 	line.WriteTo(writer)
 
 	if option.Description != "" {
@@ -259,10 +259,10 @@ func maxCommandLength(s []*Command) int {
 		return 0
 	}
 
-	ret := len(s[0].Name)
+	ret := utf8.RuneCountInString(s[0].Name)
 
 	for _, v := range s[1:] {
-		l := len(v.Name)
+		l := utf8.RuneCountInString(v.Name)
 
 		if l > ret {
 			ret = l
@@ -450,7 +450,7 @@ func (p *Parser) WriteHelp(writer io.Writer) {
 					wr.WriteString(argPrefix)
 
 					// Space between "arg:" and the description start
-					descPadding := strings.Repeat(" ", descStart-len(argPrefix))
+					descPadding := strings.Repeat(" ", descStart-utf8.RuneCountInString(argPrefix))
 					// How much space the description gets before wrapping
 					descWidth := aligninfo.terminalColumns - 1 - descStart
 					// Whitespace to which we can indent new description lines
@@ -481,7 +481,7 @@ func (p *Parser) WriteHelp(writer io.Writer) {
 			fmt.Fprintf(wr, "  %s", c.Name)
 
 			if len(c.ShortDescription) > 0 {
-				pad := strings.Repeat(" ", maxnamelen-len(c.Name))
+				pad := strings.Repeat(" ", maxnamelen-utf8.RuneCountInString(c.Name))
 				fmt.Fprintf(wr, "%s  %s", pad, c.ShortDescription)
 
 				if len(c.Aliases) > 0 {
